@@ -116,7 +116,8 @@ def _solve_z3(args):
                 return 'unsat', time.time() - t0, '', 'cvc5'
         order = sorted(Z3_STRATEGIES, key=lambda s_: 0 if s_[0] == hint else 1)     # performance hint only (which member proved it last time)
         for name, binary, opts, share, accept_sat in order:
-            tl = max(1, int(timeout_ms * share / 1000))
+            # the member that decided this obligation last time gets half of the budget (head-room for busy cores)
+            tl = max(1, int(timeout_ms * (max(share, 0.5) if name == hint else share) / 1000))
             try:
                 p = subprocess.run([binary, f'-T:{tl}', *opts, path], capture_output=True, text=True, timeout=tl + 10)
             except subprocess.TimeoutExpired:
@@ -180,15 +181,20 @@ def _load_hints():
         return {}
 
 
+def _hint_key(name):
+    """obligation name without the property prefix: the same function is verified under several properties (callee closure)"""
+    return name.split('/', 1)[1] if '/' in name else name
+
+
 def save_hints(results):
     """remember which portfolio member proved each obligation (ordering hint for the next run; no effect on verdicts)."""
     import json
     h = _load_hints()
     for r in results:
         if r.status == 'proved' and not r.backend.startswith('z3-5.1.0[ematch,arith2]'):
-            h[r.ob.name] = r.backend
+            h[_hint_key(r.ob.name)] = r.backend
         elif r.status == 'proved':
-            h.pop(r.ob.name, None)
+            h.pop(_hint_key(r.ob.name), None)
     with open(HINTS_FILE, 'w') as fh:
         json.dump(dict(sorted(h.items())), fh, indent=0)
 
@@ -213,7 +219,7 @@ def discharge(obligations, lemma_map=None, timeout_s=10, procs=None, fallback=Tr
         text, ax = to_smt2(ob, lem)
         texts.append((text, ax))
     hints = _load_hints()
-    jobs = [(t, int(timeout_s * 1000) if ob.kind == 'vc' else 3000, ob.expect == 'unsat', hints.get(ob.name))
+    jobs = [(t, int(timeout_s * 1000) if ob.kind == 'vc' else 3000, ob.expect == 'unsat', hints.get(_hint_key(ob.name)))
             for (t, _), ob in zip(texts, obligations)]
     from multiprocessing.pool import ThreadPool
     with ThreadPool(procs) as pool:
